@@ -12,6 +12,10 @@ CHECKS = {
  'C05': dict(engine='P', technique='exhaustive option-vector enumeration (single deviations + pairs) over generated and repository programs, differential oracle',
              text='Every generated program of the bound and the repository testdata programs (tool load path, own configs) are analysed under every option vector of the tier; the reported pair set must equal the default vector\'s (max-alarms=k: subset, <=k, non-empty iff).',
              note='differential only; pf=nomatch/pf=std vectors are applied to generated programs only (on std-importing programs they make the tool summarise the standard library)', ref='§6 C05'),
+
+ 'C07': dict(engine='P', technique='bounded-exhaustive shape enumeration (call graphs x edge realisations, snippet per mechanism, step family) x every analysis entry point, crash/divergence oracle',
+             text='All call graphs over main+2 (thorough: +3) functions with every edge realised as direct/closure/interface/function-parameter/method-value call, one snippet per named mechanism and SSA instruction kind, and the C01 step family are pushed through all 14 analysis entry points in worker subprocesses; a panic, a worker death or a case over the wall budget is a violation; an error return is not.',
+             note='shows absence of crashes only on the enumerated shapes; divergence judged by a generous wall budget per entry point', ref='§6 C07'),
 }
 NA = []
 def main():
